@@ -814,6 +814,68 @@ async fn exec_inner(t: Trace, prop: &'static str) -> Outcome {
         }
         survivors = next;
     }
+    // ---- last-writer consistency: a member who stayed on a channel through the whole burst was told every topic
+    // change in the order they took effect, so the last TOPIC announcement it received is the topic the server
+    // now reports (asked of the server itself, not of the model)
+    for (ch, mc) in burst_model_before.chans.iter() {
+        let pat = format!(" TOPIC {}{}", ch, crate::canon::SEP);
+        // members that stayed throughout and were told about at least one topic change
+        let mut told: Vec<(usize, String)> = vec![];
+        for m in mc.members.keys() {
+            let c = match burst_model_before.users.get(m) {
+                Some(u) => u.conn,
+                None => continue,
+            };
+            if c >= streams.len() || eof_seen.get(c).copied().unwrap_or(true) {
+                continue;
+            }
+            // (anybody who may have left and come back is not judged: a 353 for the channel marks a join or a query)
+            if streams[c].iter().any(|l| l.starts_with("353 ") && l.split(' ').nth(2) == Some(ch.as_str())) {
+                continue;
+            }
+            let still_member = survivors.iter().all(|s| s.chans.get(ch).map_or(false, |x| x.members.keys().any(|k| s.users.get(k).map_or(false, |u| u.conn == c))));
+            if !still_member {
+                continue;
+            }
+            if let Some(l) = streams[c].iter().rev().find(|l| l.starts_with(':') && l.contains(&pat)) {
+                told.push((c, l.splitn(2, &pat).nth(1).unwrap_or("").to_string()));
+            }
+        }
+        if told.is_empty() {
+            continue;
+        }
+        let asker = told[0].0;
+        w.apply(&Action::line(asker, &format!("TOPIC {}", ch))).await;
+        w.settle().await;
+        let obs = w.observe();
+        let mut now: Option<String> = None;
+        for l in &obs[asker].lines {
+            let cl = canon(l);
+            if let Some(rest) = cl.strip_prefix(&format!("332 {}{}", ch, crate::canon::SEP)) {
+                now = Some(rest.to_string());
+            } else if cl.starts_with(&format!("331 {}", ch)) {
+                now = Some(String::new());
+            }
+        }
+        let now = match now {
+            Some(t) => t,
+            None => continue,
+        };
+        for (c, text) in &told {
+            if *text != now {
+                out.violation = Some(mk(
+                    "atomicity",
+                    format!("stale_last_topic:{}", tmpl),
+                    format!(
+                        "after the burst ({}), connection {} - a member of {} throughout - was last told the topic {:?}, but the server reports the topic {:?}: it saw the topic changes in another order than they took effect ; burst: {}",
+                        tmpl, c, ch, text, now, describe(&ops)
+                    ),
+                ));
+                return out;
+            }
+            out.count("last_topic_consistent", 1);
+        }
+    }
     out
 }
 
